@@ -4,6 +4,7 @@ package main
 
 import (
 	"fmt"
+	"go/token"
 	"go/types"
 	"sort"
 	"strings"
@@ -397,12 +398,28 @@ func (x *fnExec) external(fr *frame, st *State, ci ssa.CallInstruction, res ssa.
 		// ghost lock state: which mutexes this goroutine holds (no blocking, no interference modelled)
 		if len(args) > 0 && args[0].K == VPtr {
 			id := mutexID(args[0])
-			a := st.arr("X:held", SBool)
 			switch fn.Name() {
 			case "Lock", "RLock":
-				st.setArr("X:held", Store(a, id, True))
+				// re-acquiring a lock this function released earlier: other goroutines may have run in between,
+				// so everything the lock protects (conservatively: the whole heap) is unknown again
+				rel := Select(st.arr("X:released", SBool), id)
+				if rel != False && x.C != nil && x.C.Interference {
+					keepHeld, keepRel, keepSends := st.arr("X:held", SBool), st.arr("X:released", SBool), st.arr("X:sends", BV(64))
+					hv := st.clone()
+					hv.pc = And(st.pc, rel)
+					x.havocAll(hv, "lock re-acquired after release in "+funcKey(fr.fn))
+					hv.setArr("X:held", keepHeld)
+					hv.setArr("X:released", keepRel)
+					hv.setArr("X:sends", keepSends)
+					same := st.clone()
+					same.pc = And(st.pc, Not(rel))
+					m := mergeStates([]*Term{hv.pc, same.pc}, []*State{hv, same})
+					st.pc, st.heap, st.epoch = m.pc, m.heap, m.epoch
+				}
+				st.setArr("X:held", Store(st.arr("X:held", SBool), id, True))
 			case "Unlock", "RUnlock":
-				st.setArr("X:held", Store(a, id, False))
+				st.setArr("X:held", Store(st.arr("X:held", SBool), id, False))
+				st.setArr("X:released", Store(st.arr("X:released", SBool), id, True))
 			}
 		}
 		set(fresh("mutex"))
@@ -733,7 +750,7 @@ func (x *fnExec) devirtualise(fr *frame, st *State, ci ssa.CallInstruction, res 
 		// closed world: an interface with unexported methods can only be implemented inside the package
 		tags = map[int]*Term{}
 		iface, _ := cc.Value.Type().Underlying().(*types.Interface)
-		if iface == nil || cc.Method.Exported() || ifaceExported(cc.Value.Type()) {
+		if iface == nil || !ifaceSealed(iface) {
 			return false
 		}
 		n := 0
@@ -843,6 +860,44 @@ func (x *fnExec) devirtualise(fr *frame, st *State, ci ssa.CallInstruction, res 
 	return true
 }
 
+// ifaceSealed reports whether the interface has an unexported method, so that only types declared in the
+// package (or types embedding one of them) can implement it.
+func ifaceSealed(iface *types.Interface) bool {
+	for i := 0; i < iface.NumMethods(); i++ {
+		if !iface.Method(i).Exported() {
+			return true
+		}
+	}
+	return false
+}
+
+// sealedImplementers lists the in-package pointer types implementing a sealed interface.
+func (x *fnExec) sealedImplementers(iface *types.Interface) []types.Type {
+	var out []types.Type
+	if !ifaceSealed(iface) {
+		return nil
+	}
+	var names []string
+	for n := range x.P.SSA.Members {
+		names = append(names, n)
+	}
+	sort.Strings(names)
+	for _, n := range names {
+		tn, ok := x.P.SSA.Members[n].(*ssa.Type)
+		if !ok {
+			continue
+		}
+		if _, isI := tn.Type().Underlying().(*types.Interface); isI {
+			continue
+		}
+		t := types.NewPointer(tn.Type())
+		if types.Implements(t, iface) {
+			out = append(out, t)
+		}
+	}
+	return out
+}
+
 // smallLeaf reports whether fn (and the static callees it reaches) is loop-free and tiny.
 func (x *fnExec) smallLeaf(fn *ssa.Function, depth int) bool {
 	if depth > 3 || len(fn.Blocks) == 0 || instrCount(fn) > 40 || len(findLoops(fn)) > 0 {
@@ -934,6 +989,15 @@ func (x *fnExec) atMapUpdate(fr *frame, st *State, mu *ssa.MapUpdate) {
 		}
 		want := strings.TrimPrefix(ac.Callee, "map:")
 		match := false
+		// a map held in a struct field is named Type.field
+		if ld, ok := mu.Map.(*ssa.UnOp); ok && ld.Op == token.MUL {
+			if fa, ok := ld.X.(*ssa.FieldAddr); ok {
+				st := fa.X.Type().Underlying().(*types.Pointer).Elem()
+				if typeName(st)+"."+st.Underlying().(*types.Struct).Field(fa.Field).Name() == want {
+					match = true
+				}
+			}
+		}
 		for _, n := range names {
 			if n == want {
 				match = true
